@@ -41,7 +41,7 @@ for key in sorted(res):
     meta = json.load(open(os.path.join(r['dir'], 'meta.json')))
     meta['property'] = r['prop']
     if os.path.exists(os.path.join(r['dir'], 'patch.orig')):
-        meta['ported'] = 'patch.diff was re-created on top of the later fix commits b360d40/0fcc3aa (context moved or the touched function was repaired in between); same change as the author wrote'
+        meta['ported'] = 'patch.diff was re-created on top of the later fix commits b360d40/0fcc3aa/74ae14b (context moved or the touched function was repaired in between); same change as the author wrote'
 
     meta['author'] = 'independent sub-agent given only the property text and a scratch worktree'
     meta['confirmed'] = {
